@@ -237,6 +237,63 @@ fn planted_equalities(r: &mut Rng, class: DataClass) -> (StandardLinearModel, Ve
     (std_from(obj, rows, false, 0.0), tags)
 }
 
+/// large magnitudes with near-equal ratios in the entering column: rows `a_i x + … + s_i = a_i (K + d_i)` with `K` up to
+/// 1e8 and offsets `d_i` from below the absolute tolerance up to 1e3 (far above it, but below a RELATIVE 1e-5 of
+/// `K`); the EARLIER row (smaller basic index, the one a tie-break would keep) often has the LARGER ratio.  `clean`
+/// instances use powers of two and dyadic offsets >= 2^-10, so every exact quantity of the instance is far above the
+/// tolerance and nothing can be attributed to sub-tolerance data.
+fn large_magnitude(r: &mut Rng, clean: bool) -> (StandardLinearModel, Vec<String>) {
+    let m = 2 + r.below(3);
+    let k = 1 + r.below(3);
+    let big = [1e5, 1e6, 2e7, 1e8, 3e7][r.below(5)];
+    let kk = if clean { big } else { big + [0.0, 0.5, 17.0][r.below(3)] };
+    let deltas: &[f64] = if clean { &[0.0009765625, 0.125, 1.0, 150.0, 1000.0, 64.0] } else { &gen_std::LARGE_DELTAS };
+    // offsets in DEcreasing order with probability 1/2: the first candidate then has the largest ratio
+    let mut ds: Vec<f64> = (0..m).map(|_| deltas[r.below(deltas.len())] * (if !clean && r.chance(1, 4) { -1.0 } else { 1.0 })).collect();
+    if r.chance(1, 2) { ds.sort_by(|a, b| b.partial_cmp(a).unwrap()); }
+    if clean { ds.dedup(); while ds.len() < m { let d = ds[ds.len() - 1] * 0.5 + 0.25; ds.push(d); } }
+    let mut rows = vec![];
+    for i in 0..m {
+        let a = if clean { [1.0, 2.0, 4.0][r.below(3)] } else { [1.0, 2.0, 3.0, 1e4, 0.5][r.below(5)] };
+        let mut c = vec![a];
+        for _ in 1..k { c.push(if r.chance(1, 2) { 0.0 } else { r.range(-2, 3) as f64 }); }
+        for j in 0..m { c.push(if i == j { 1.0 } else { 0.0 }); }
+        rows.push((c, a * (kk + ds[i])));
+    }
+    let mut obj = vec![-1.0 - r.below(3) as f64];
+    for _ in 1..k { obj.push(r.range(-1, 2) as f64 * 0.5); }
+    obj.extend(vec![0.0; m]);
+    (std_from(obj, rows, r.chance(1, 2), 0.0), vec!["stream:large-magnitude".into(), if clean { "large:clean-dyadic".into() } else { "large:mixed".into() }, format!("size:{}x{}", m, k + m)])
+}
+
+/// the tolerance predicates themselves, probed at small and LARGE arguments through the only native hook
+/// (`float_lt`); `float_lt(a,b)` and `float_lt(b,a)` together determine `float_eq(a,b)` for `a != b`
+fn tolerance_probes(r: &mut Rng, tol: f64, cases: &mut Vec<Case>) {
+    let mut pairs: Vec<(f64, f64)> = vec![];
+    for base in [0.0, 1.0, 3.0, 1e2, 1e3, 1e4, 1e5, 1e6, 2e7, 1e8, 1e9, -1e5, -2e7] {
+        for d in [0.0, tol * 0.5, tol * 0.999, tol, tol * 1.001, 2.0 * tol, 1e-4, 1e-3, 0.125, 1.0, 150.0, 1e3] {
+            pairs.push((base, base + d)); pairs.push((base + d, base)); pairs.push((base - d, base));
+        }
+        let b: f64 = base;
+        for rel in [0.5e-5, 0.99e-5, 1.01e-5, 2e-5] { let d = b.abs().max(1.0) * rel; pairs.push((base, base + d)); pairs.push((base + d, base)); }
+    }
+    for _ in 0..200 {
+        let a = gen_std::value(r, DataClass::Large, -9, 9);
+        let b = if r.chance(1, 2) { a + gen_std::LARGE_DELTAS[r.below(gen_std::LARGE_DELTAS.len())] } else { gen_std::value(r, DataClass::Large, -9, 9) };
+        pairs.push((a, b)); pairs.push((b, a));
+    }
+    for (a, b) in pairs {
+        let mut c = Case::default();
+        c.req = format!("flt {} {} {}", gen_std::num(tol), gen_std::num(a), gen_std::num(b));
+        c.imp = format!("(ok {})", rooc::verif_hooks::float_lt_hook(a, b));
+        c.show = format!("float_lt({:?}, {:?})", a, b);
+        c.tags = vec!["kind:tolerance-probe".into(), if a.abs().max(b.abs()) >= 1e4 { "probe:large".into() } else { "probe:small".into() },
+            if (a - b).abs() < tol { "probe:within-tolerance".into() } else { "probe:apart".into() }];
+        c.nontrivial = a != b;
+        cases.push(c);
+    }
+}
+
 /// textbook degenerate / cycling instances (`max` problems written as `min` of the negated objective,
 /// one slack per row)
 fn classics() -> Vec<(&'static str, StandardLinearModel)> {
@@ -300,6 +357,11 @@ pub fn generate(seed: u64, n: usize, thorough: bool, _corpus: Option<&str>) -> V
     for _ in 0..(if thorough { 80 } else { 8 }) {
         let sm = cycling_variant(&mut r);
         problem(&sm, tol, &["stream:cycling-variants".to_string()], &[], &mut cases);
+    }
+    tolerance_probes(&mut r, tol, &mut cases);
+    for i in 0..(if thorough { 1500 } else { 120 }) {
+        let (sm, tags) = large_magnitude(&mut r, i % 2 == 0);
+        problem(&sm, tol, &tags, &[], &mut cases);
     }
     // seeded known defect (liveness of the pipeline): a reduced cost below the absolute tolerance
     problem(&std_from(vec![-2.0, -0.00000999, 0.0, 0.0], vec![(vec![1.0, 0.0, -1.0, 0.0], 3.0), (vec![1.0, 0.0, 0.0, 1.0], 3.0)], false, 0.0),
